@@ -3,17 +3,16 @@
 Only *declarative* content is translated (python `ast`, nothing is executed):
   * `_safe_divide`: the default of min_denominator, the shape of the guard (`denominator <= min_denominator`, optionally
     `and numerator > K * min_denominator`) and K;
-  * `BaselineMetrics._min_denominator`;
-  * which computed field of BaselineMetrics divides which numerator by which denominator through `_safe_divide`;
-  * how rmse / rmse_adj / rmse_autocorr_adj / mse / ddof are formed (which sum over which count, the floor of the
-    degrees of freedom), the lag of the residual autocorrelation, the ddof of ColumnMetrics.variance, the quantile
-    levels of ColumnMetrics.iqr;
+  * `BaselineMetrics._min_denominator`, the ddof of ColumnMetrics.variance, the quantile levels of ColumnMetrics.iqr,
+    the floors of ddof / ddof_autocorr (`if x < A: x = B`), the lag of the residual autocorrelation, the n' fallback;
+  * which computed field of BaselineMetrics hands which numerator and denominator to `_safe_divide`;
   * `ReportingMetrics.total_savings_uncertainty`: the hourly factor, the daily and billing polynomial coefficients,
-    the constant of the ASHRAE approximation factor `n / (m * n_prime) * (1 + (2 / n_prime))`, and the defaults of
-    confidence_level and t_tail;
-  * `DailyModel._get_error_metrics`: the denominator of CVRMSE and the quantile levels of PNRMSE;
-  * the comparison operators of the two poor-fit gates.
-Fail-closed: anything not recognised raises TranslateError (reported by the check as a broken tie)."""
+    the constant K of `(1 + K / n_prime)`, and the defaults of confidence_level and t_tail;
+  * `DailyModel._get_error_metrics`: the quantile levels of PNRMSE.
+Numeric literals are searched inside the named functions, the surrounding arithmetic is NOT matched (it is tied by
+the correspondence), so that a behaviour-preserving rewrite of a formula does not break the translation.
+Fail-closed: a literal that is missing or occurs more than once, an unknown `_safe_divide` operand or an unrecognised
+guard raises TranslateError (reported by the check as a broken tie)."""
 import ast
 import os
 from fractions import Fraction
